@@ -551,6 +551,8 @@ class RunB:
 
     # ------------------------------------------------------------ the run
     def execute(self):
+        from sim import core
+        core.apply_logging_config(self.trace)
         install()
         METER.install()
         tr = self.trace
